@@ -5,6 +5,7 @@
 package gomatrixserverlib
 
 import (
+	"context"
 	"fmt"
 	"runtime/debug"
 	"sort"
@@ -33,7 +34,7 @@ func init() {
 }
 
 var c14RespFaultKinds = []string{
-	"sig-corrupt", "sig-corrupt", "sig-wrong-key", "sig-drop", "sig-drop", "sig-extra",
+	"sig-corrupt", "sig-corrupt", "sig-wrong-key", "sig-drop", "sig-drop", "sig-extra", "wire-padded",
 	"disallow", "disallow", "other-room", "strip-state-key", "truncate", "malformed", "null",
 	"long-room-id", "type-cp", "type-bytes", "big-event",
 	"omit", "omit", "omit", "dup-pdu", "dup-tuple", "twin-sig", "twin-sig",
@@ -323,7 +324,7 @@ func c14RespClasses(ctx *vfCtx, room *c14Room, c c14RespCase, lists [2][]c14Item
 		if c14FaultDrops(f.Kind, c14IsCreate(room.Trees[f.At])) || (f.Kind == "omit" && f.Arg%3 == 2) {
 			faulted[f.At] = true
 		}
-		if f.Kind != "sig-extra" {
+		if f.Kind != "sig-extra" && f.Kind != "wire-padded" {
 			real = true
 		}
 	}
@@ -576,6 +577,31 @@ func c14CheckStateResponse(ctx *vfCtx, c c14RespCase) {
 			if perr != nil || !c14SigOK(c.Version, t) {
 				ctx.Fail("C14/state-response/returned-event-without-verified-signatures", "returned event %s does not carry verified signatures of all required servers", p.EventID())
 				return
+			}
+		}
+	}
+	// the same response checked for a caller whose context has already ended: whatever comes back then
+	// passed the same two checks (the verifier here needs no network, so nothing excuses a skipped check)
+	{
+		ended, cancel := context.WithCancel(c14Quiet())
+		cancel()
+		var asked2 []string
+		prov2 := c14LibProvider(room, c.Prov, &asked2)
+		var ea, es []PDU
+		var eerr error
+		if c14Catch(ctx, "C14/state-response/ended-context", lists, true, func() {
+			ea, es, eerr = CheckStateResponse(ended, &stateResponseImpl{authEvents: c14Raws(lists[0]), stateEvents: c14Raws(lists[1])}, RoomVersion(c.Version), c14Verifier(), prov2, vfUserIDForSender)
+		}) {
+			return
+		}
+		if eerr == nil {
+			ctx.Class("ended-context/answered")
+			for _, p := range append(append([]PDU{}, ea...), es...) {
+				t, perr := evTree(p.JSON())
+				if perr != nil || !c14SigOK(c.Version, t) {
+					ctx.Fail("C14/state-response/ended-context/returned-event-without-verified-signatures", "with an ended context, returned event %s does not carry verified signatures of all required servers", p.EventID())
+					return
+				}
 			}
 		}
 	}
